@@ -72,7 +72,10 @@ Fate == [
   comment   |-> [ntok |-> 3, advs |-> 4, fin |-> "raise", code |-> "XPST0003", post |-> "-",        def |-> Err("XPST0003")],
   unkfn     |-> [ntok |-> 4, advs |-> 2, fin |-> "raise", code |-> "XPST0017", post |-> "-",        def |-> Err("XPST0017")],
   type      |-> [ntok |-> 3, advs |-> 4, fin |-> "tree",  code |-> "-",        post |-> "XPTY0004", def |-> Err("XPTY0004")],
-  prefix    |-> [ntok |-> 3, advs |-> 4, fin |-> "raise", code |-> "XPST0081", post |-> "-",        def |-> Err("XPST0081")]
+  prefix    |-> [ntok |-> 3, advs |-> 4, fin |-> "raise", code |-> "XPST0081", post |-> "-",        def |-> Err("XPST0081")],
+  \* a failure INSIDE a construct that toggles a parser flag while it parses its operand
+  \* (XPath 3.1 '1 => unknown:f()': led of '=>' sets parse_arguments, the operand raises XPST0081)
+  arrowfail |-> [ntok |-> 5, advs |-> 4, fin |-> "raise", code |-> "XPST0081", post |-> "-",        def |-> Err("XPST0081")]
 ]
 
 ASSUME SourcesOK == Sources \subseteq DOMAIN Fate
